@@ -43,14 +43,16 @@ type hookCall struct {
 }
 
 type hookSim struct {
-	r        *Run
-	w        *World
-	maxTries int
-	model    map[string]*hookModel
-	outcomes map[string]int // per url: planned outcome of the next call
-	calls    []hookCall
-	prodClnt bool
-	lis      *simListener
+	r          *Run
+	w          *World
+	maxTries   int
+	model      map[string]*hookModel
+	outcomes   map[string]int // per url: planned outcome of the next call
+	calls      []hookCall
+	prodClnt   bool
+	lis        *simListener
+	replyShape int    // how a 200 reply is written to the production client (0 one piece, 1 split, 2 chunked, 3 large)
+	duringCall func() // (scripted client) runs inside the next delivery: another API client at work meanwhile
 }
 
 const (
@@ -75,6 +77,10 @@ func (s *hookSim) Call(headers map[string]string, method string, u string, body 
 		h[k] = append(h[k], v) // exactly as configured, no canonicalisation
 	}
 	s.calls = append(s.calls, hookCall{url: u, headers: h, method: method, body: b})
+	if f := s.duringCall; f != nil {
+		s.duringCall = nil
+		f() // what another API client does while this delivery is in flight
+	}
 	switch s.outcomes[u] {
 	case oc200:
 		return &http.Response{StatusCode: 200, Body: io.NopCloser(strings.NewReader("ok"))}, nil
@@ -100,7 +106,25 @@ func (s *hookSim) serve(c net.Conn) {
 	s.calls = append(s.calls, hookCall{url: u, headers: req.Header.Clone(), method: req.Method, body: body})
 	switch s.outcomes[u] {
 	case oc200:
-		_, _ = io.WriteString(c, "HTTP/1.1 200 OK\r\nContent-Length: 2\r\nConnection: close\r\n\r\nok")
+		switch s.replyShape {
+		case 1: // the status line and the headers first, the body a moment later
+			_, _ = io.WriteString(c, "HTTP/1.1 200 OK\r\nContent-Length: 2\r\nConnection: close\r\n\r\n")
+			time.Sleep(50 * time.Millisecond)
+			_, _ = io.WriteString(c, "ok")
+		case 2: // chunked, the chunks apart
+			_, _ = io.WriteString(c, "HTTP/1.1 200 OK\r\nTransfer-Encoding: chunked\r\nConnection: close\r\n\r\n")
+			time.Sleep(20 * time.Millisecond)
+			_, _ = io.WriteString(c, "1\r\no\r\n")
+			time.Sleep(20 * time.Millisecond)
+			_, _ = io.WriteString(c, "1\r\nk\r\n0\r\n\r\n")
+		case 3: // a body larger than any read buffer
+			_, _ = io.WriteString(c, "HTTP/1.1 200 OK\r\nContent-Length: 20000\r\nConnection: close\r\n\r\n")
+			_, _ = io.WriteString(c, strings.Repeat("x", 6000))
+			time.Sleep(10 * time.Millisecond)
+			_, _ = io.WriteString(c, strings.Repeat("y", 14000))
+		default:
+			_, _ = io.WriteString(c, "HTTP/1.1 200 OK\r\nContent-Length: 2\r\nConnection: close\r\n\r\nok")
+		}
 	case ocStatus:
 		_, _ = io.WriteString(c, "HTTP/1.1 503 Service Unavailable\r\nContent-Length: 4\r\nConnection: close\r\n\r\nbusy")
 	case ocBadBody:
@@ -254,6 +278,26 @@ func (s *hookSim) register() string {
 	}
 }
 
+// reregister re-registers an inactive webhook with its own configuration (from inside a delivery).
+func (s *hookSim) reregister(u string) {
+	m := s.model[u]
+	req := map[string]any{"url": u}
+	tok := strings.TrimPrefix(m.hdrValue, "Bearer ")
+	switch strings.ToLower(m.authKind) {
+	case "bearer":
+		req["requiredAuth"] = map[string]string{"type": m.authKind, "token": tok}
+	case "custom":
+		req["requiredAuth"] = map[string]string{"type": "custom_header", "token": tok, "header": m.hdrName}
+	}
+	body, _ := json.Marshal(req)
+	code, resp := s.w.HTTP("POST", "/api/v1/webhook", body, nil)
+	s.r.Logf("register %s again while a delivery is in flight -> %d", u, code)
+	if code != 200 {
+		s.r.Fail("C12", "register", "inactive-not-reactivated|during-delivery", "re-registering inactive webhook %s during a delivery -> %d %s", u, code, string(resp))
+	}
+	m.active, m.count = true, 0
+}
+
 func (s *hookSim) delete() {
 	r, t := s.r, s.r.T
 	u := hookURLs[t.Draw(len(hookURLs), "url")]
@@ -280,6 +324,31 @@ func (s *hookSim) notify() (deactivated, resets int) {
 		s.outcomes[u] = t.Pick([]int{45, 25, 20, 10}, "outcome")
 	}
 	s.calls = nil
+	// how a 200 reply reaches the production client: in one piece, headers first and the body a moment later,
+	// chunked, or large
+	s.replyShape = 0
+	if s.prodClnt {
+		s.replyShape = t.Pick([]int{40, 25, 20, 15}, "reply-shape")
+	}
+	// scripted client: while the first delivery of this event is in flight another API client re-registers a webhook
+	// that is inactive at this moment (it is active from then on, whatever this event's own bookkeeping does)
+	rereg := ""
+	if !s.prodClnt {
+		nAct := 0
+		var inactive []string
+		for _, u := range urls {
+			if s.model[u].active {
+				nAct++
+			} else {
+				inactive = append(inactive, u)
+			}
+		}
+		if nAct > 0 && len(inactive) > 0 && t.Chance(1, 2, "reregister-during-delivery") {
+			rereg = inactive[t.Draw(len(inactive), "rereg-idx")]
+			s.duringCall = func() { s.reregister(rereg) }
+			r.Probe("re-registration-during-a-delivery")
+		}
+	}
 	ev := map[string]any{"operation": "ADD", "header": map[string]any{"height": r.Step, "hash": fmt.Sprintf("%064x", r.Step)}}
 	now := time.Now().Unix()
 	pan, pv, st := guard(func() { s.w.Svc.Webhooks.Notify(ev) })
@@ -300,9 +369,12 @@ func (s *hookSim) notify() (deactivated, resets int) {
 			r.Fail("C12", "called-"+st, "notify", "%s webhook %s received %d request(s)", st, u, len(cs))
 		}
 	}
+	s.duringCall = nil
 	for _, u := range urls {
 		m := s.model[u]
-		if !m.active {
+		if !m.active || u == rereg {
+			// (a webhook re-registered while this event was being delivered was inactive when the event's list was
+			// drawn up: whether it still gets this event is not pinned; its state afterwards is - active)
 			continue
 		}
 		oc := s.outcomes[u]
